@@ -245,6 +245,12 @@ func c01(c *Ctx) (*report.Result, error) {
 		checkSilentTargets(c, res, f, "O1.8")
 		res.RuleDoc["O1.13"] = "a routed message is attributed to the shard it was read from: every RoutedMessage built by a receiver carries SourceShard = that receiver's sourceShardID, the intra-proxy receiver hands it to its own target's channel, and the intra-proxy sender forwards an ack to its own source shard - the ring records that attribution and acknowledges exactly that shard"
 		checkShardIDRoles(c, res, "O1.13", func(kind, callee string) bool { return kind == "lit" || callee == "DeliverAckToShardOwner" || callee == "GetRemoteSendChan" })
+		res.RuleDoc["O1.14"] = "the keep-alive repeats the aggregate, not one target's report (same analysis as O3.4): lastSentAck is the request just sent with the aggregated minimum, and the keep-alive re-sends that object"
+		if r3, err := Registry["C03"](c); err == nil && r3 != nil {
+			if n := importObligations(res, r3, "O1.14", func(o report.Obligation) bool { return o.Rule == "O3.4" }); n < 2 {
+				res.Undec("O1.14", "keep-alive obligations of O3.4", "", fmt.Sprintf("%d imported, at least 2 expected", n))
+			}
+		}
 		res.RuleDoc["O1.12"] = "a confirmation is filed under the target it came from (same analysis as O3.14): an ack forwarded under another target's shard overwrites that target's lower level in ackByTarget and the minimum rises above what it confirmed"
 		checkRoutedAckTarget(c, res, "O1.12")
 		res.RuleDoc["O1.11"] = "each target stream's sender owns the message it is handed (same analysis as O2.5 / O4.12): a body shared between the targets of a fan-out lets one target's sender inherit another's rewritten watermark, advertise it in keep-alives, and have the target confirm ids it was never sent - which the ring translates into source ids that were not confirmed"
